@@ -1202,6 +1202,7 @@ static void scen_scoped_fd() {
 static void scen_poll() {
   count("scenario.poll");
   phosg::Poll p;
+  vfs::world().own_empty_polls = true;
   int fds[3];
   bool closed[3] = {false, false, false};
   for (int i = 0; i < 3; i++) fds[i] = vfs::open_stream_fd("data", 0, 0);
@@ -1255,10 +1256,15 @@ static void scen_poll() {
         }
         vfs::calls_reset();
         std::unordered_map<int, short> got;
+        int timeout_ms = (int)pick({0, 1, 1000, 250}, "F.timeout");
+        bool use_default = choose(4, "F.timeout.default") == 3; // Poll::poll() defaults to a timeout of 0
         try {
-          got = p.poll(0);
+          got = use_default ? p.poll() : p.poll(timeout_ms);
         } catch (const std::exception& e) {
           fail("poll/threw", "poll", string("Poll::poll threw: ") + e.what());
+        }
+        if (vfs::world().calls.polls && vfs::world().calls.last_poll_timeout != (use_default ? 0 : timeout_ms)) {
+          fail("poll/timeout_not_forwarded", "timeout", "Poll::poll(" + std::to_string(use_default ? 0 : timeout_ms) + ") called poll() with a timeout of " + std::to_string(vfs::world().calls.last_poll_timeout) + " ms");
         }
         std::map<int, short> want;
         for (auto& kv : model) {
